@@ -229,6 +229,12 @@ class Harness:
             err = "%s: %s" % (type(e).__name__, safe_str(e))
         finally:
             self.fault_injection(False)
+        # operations that execute nothing leave the sandbox's exception as it was: it still belongs to the program
+        # of the last execution
+        if prog is None and op in ("clear_output", "set_input", "queue_input", "clear_input"):
+            prog = getattr(self, "last_prog", None)
+        else:
+            self.last_prog = prog
         proj = self.project(status, prog, mods_before, a)
         proj["error"] = err
         return proj
